@@ -25,6 +25,9 @@ LEVEL_TEXT += " " + '(REALLOCOLD) growth with ares_realloc_zero states the capac
 # seventh/eighth-round addition
 TECHNIQUE += "; " + 'must-facts on the reference argument of every INSERT_BEFORE call (R-C19-BEFOREREF)'
 LEVEL_TEXT += " " + '(BEFOREREF, eighth round) an insertion before a node is always given a non-NULL node (insert-after-the-tail cannot become insert-at-the-head).'
+# ninth-round addition
+TECHNIQUE += "; " + 'decision table of ares_buf_reclaim by exact evaluation (tag none/before/at/after the read position)'
+LEVEL_TEXT += " " + '(BUFTAG, ninth round) compaction discards at most min(read position, tag) bytes for every relative position of tag and read position.'
 LEVEL_NOTE = "trusts clang CFG + extractor; conformance to the ADT model needs model-based execution and is outside this family"
 DESIGN_REF = "DESIGN.md §6/C19"
 EXPLANATION = LEVEL_TEXT
@@ -322,9 +325,9 @@ def r_reclaim(prog, R):
                         continue
                     if op3 == "==" and is_field(l3, "tag_offset") and "SIZE_MAX" in render(r3):
                         okedge = True
-                    if op3 == ">=" and is_field(l3, "tag_offset") and is_field(r3, "offset"):
+                    if op3 in (">=", ">") and is_field(l3, "tag_offset") and is_field(r3, "offset"):     # a tag strictly behind the read position is, a fortiori, not before it
                         okedge = True
-                    if op3 == "<=" and is_field(l3, "offset") and is_field(r3, "tag_offset"):
+                    if op3 in ("<=", "<") and is_field(l3, "offset") and is_field(r3, "tag_offset"):
                         okedge = True
             if not okedge:
                 bad = pblk
